@@ -24,9 +24,12 @@ Section Broadcast.
   Record mat := mkmat { nr : nat; nc : nat; dat : list T }.
 
   (** [Matrix::new(data, r as i32, c as i32)] with r, c >= 0: [reshape_mut] accepts exactly
-      [r > 0 && c > 0 && r * c == len] *)
+      [r > 0 && c > 0 && r * c == len] and (repaired code) the 0 x 0 request on empty data,
+      [r == 0 && c == 0 && len == 0]; every other request with a zero dimension is refused *)
+  Definition new_ok (len r c : nat) : bool :=
+    ((0 <? r) && (0 <? c) && (r * c =? len)) || ((r =? 0) && (c =? 0) && (len =? 0)).
   Definition matrix_new (d : list T) (r c : nat) : option mat :=
-    let* _ := guard ((0 <? r) && (0 <? c) && (r * c =? length d)) in
+    let* _ := guard (new_ok (length d) r c) in
     Some (mkmat r c d).
 
   (** the rows [m[0], m[1], ...] (slices [i*ncols .. (i+1)*ncols] of the data) *)
@@ -122,8 +125,8 @@ Section Broadcast.
           Some (mkmat (nr m1) (nc m1) (flatten new))
       | (BHstack hstack, BVstack vstack) =>
           let* _ := guard ((nc m2 =? hstack) && (nr m1 =? vstack) && (nr m2 =? 1) && (nc m1 =? 1)) in
-          (* new = Matrix::zeros(m1.nrows, m2.ncols); new[i][j] = m1[i][0] $op m2[0][j] *)
-          let* _ := guard ((0 <? nr m1) && (0 <? nc m2)) in
+          (* new = Matrix::zeros(m1.nrows, m2.ncols) = Matrix::new(zeros(r * c), r, c); new[i][j] = m1[i][0] $op m2[0][j] *)
+          let* _ := guard (new_ok (nr m1 * nc m2) (nr m1) (nc m2)) in
           let* new := mapM (fun i => mapM (fun j => let* a := at2 R1 i 0 in
                                                     let* b := at2 R2 0 j in Some (op a b))
                                           (seq 0 (nc m2))) (seq 0 (nr m1)) in
@@ -131,7 +134,7 @@ Section Broadcast.
       | (BVstack vstack, BHstack hstack) =>
           let* _ := guard ((nc m1 =? hstack) && (nr m2 =? vstack) && (nr m1 =? 1) && (nc m2 =? 1)) in
           (* new = Matrix::zeros(m2.nrows, m1.ncols); new[i][j] = m1[0][j] $op m2[i][0] *)
-          let* _ := guard ((0 <? nr m2) && (0 <? nc m1)) in
+          let* _ := guard (new_ok (nr m2 * nc m1) (nr m2) (nc m1)) in
           let* new := mapM (fun i => mapM (fun j => let* a := at2 R1 0 j in
                                                     let* b := at2 R2 i 0 in Some (op a b))
                                           (seq 0 (nc m1))) (seq 0 (nr m2)) in
@@ -149,7 +152,7 @@ Section Broadcast.
   End Op.
 
   (** ** The operator impls *)
-  (** [Vector::to_matrix]: [Matrix::new(self, 1, n as i32)]; panics for the empty vector *)
+  (** [Vector::to_matrix]: [Matrix::new(self, 1, n as i32)]; panics for the empty vector (the request 1 x 0) *)
   Definition vec_to_matrix (v : list T) : option mat := matrix_new v 1 (length v).
 
   (** hand-wired reading of the three impl families (what the wiring table is proved to say) *)
@@ -184,9 +187,13 @@ Section Broadcast.
     let* a2 := eval_arg (i_arg2 row) self other in
     broadcast (tok_op O t) a1 a2.
 
-  (** the struct invariant of [Matrix] (established by every constructor of the crate; [Matrix::new] also
-      refuses a zero dimension) *)
+  (** the struct invariant of [Matrix] with positive dimensions (what every constructor of the crate establishes,
+      [Matrix::empty()] / the 0 x 0 request of the repaired [Matrix::new] apart) *)
   Definition wf_mat (m : mat) : Prop := 0 < nr m /\ 0 < nc m /\ length (dat m) = nr m * nc m.
+  (** the empty matrix [Matrix::empty()] *)
+  Definition empty_mat : mat := mkmat 0 0 [].
+  (** positive shape, or the empty matrix *)
+  Definition wf_mat0 (m : mat) : Prop := wf_mat m \/ m = empty_mat.
 End Broadcast.
 Arguments mat T : clear implicits.
 Arguments value T : clear implicits.
